@@ -17,7 +17,7 @@ SeqToSet(q) == {q[i] : i \in DOMAIN q}
 
 \* JSON object -> state record of Repo.tla
 StateOf(j) ==
-  [ cfgc |-> j.cfgc, prof |-> j.prof, cfgNewer |-> j.cfgNewer, issNewer |-> j.issNewer, art |-> j.art,
+  [ cfgc |-> j.cfgc, prof |-> j.prof, par |-> j.par, cfgNewer |-> j.cfgNewer, mt |-> j.mt, art |-> j.art,
     pc |-> "idle", plan |-> <<>>, pos |-> 0, flags |-> SeqToSet(j.flags), last |-> j.last ]
 
 \* pre.last / pre.flags are outputs of the previous step and irrelevant for what may happen next
@@ -27,6 +27,7 @@ ActOf(a) ==
   IF a.name = "Run"
   THEN [name |-> "Run", fl |-> SeqToSet(a.fl), plan |-> a.plan, k |-> a.k, outcome |-> a.outcome, cut |-> a.cut]
   ELSE IF a.name = "Edit" THEN [name |-> "Edit", e |-> a.e, c |-> a.c]
+  ELSE IF a.name = "SetIssuer" THEN [name |-> "SetIssuer", e |-> a.e, p |-> a.p]
   ELSE IF a.name = "EditProfile" THEN [name |-> "EditProfile", c |-> a.c]
   ELSE IF a.name = "Truncate" THEN [name |-> "Truncate", e |-> a.e, cut |-> a.cut]
   ELSE [name |-> a.name, e |-> a.e]
@@ -59,7 +60,7 @@ Clauses(o) ==
      \* ---- C11: the plan is legal for the state the run found
      (IF IsRun(o) /\ o.obs.result \notin {"panic", "refused"} /\ TypeOK(pre)
       THEN (IF PlanSet(o) \in PlanSets(pre, fl) THEN {} ELSE {"planSet"})
-        \cup (IF o.act.plan \in TopoOrders(PlanSet(o)) THEN {} ELSE {"issuersFirst"})
+        \cup (IF o.act.plan \in TopoOrders(pre, PlanSet(o)) THEN {} ELSE {"issuersFirst"})
         \cup (IF \A i \in DOMAIN o.act.plan :
                     o.obs.changes[i] = IF pre.art[o.act.plan[i]].cert THEN "replace" ELSE "create"
               THEN {} ELSE {"changeType"})
@@ -106,7 +107,7 @@ Clauses(o) ==
      \* ---- C01: what a successful run wrote verifies under, and names byte for byte, its issuer
      (IF IsRun(o) /\ o.obs.result = "ok" /\ o.act.outcome = "ok"
       THEN UNION { LET q == o.obs.postFacts[e] IN
-                     (IF post.art[e].sigok THEN {} ELSE {"signature"})
+                     (IF post.art[e].sigok /\ post.art[e].iss = post.par[e] THEN {} ELSE {"signature"})
                 \cup (IF q.dnBytesOk THEN {} ELSE {"issuerDnBytes"})
                 \cup (IF q.akiOk THEN {} ELSE {"aki"})
                 \cup (IF q.skiOk THEN {} ELSE {"ski"})
